@@ -79,6 +79,13 @@ example : specSel ["DEPT", "GR", "RHOB", "NPHI"] ["NPHI", "ZZZ", "GR"] = [0, 1, 
 example : specSel ["DEPT", "GR", "RHOB"] ([] : List String) = [0, 1, 2] := by decide
 example : specSel ["DEPT", "GR", "RHOB"] ["ZZZ"] = [0] := by decide
 
+/-- Names are compared EXACTLY (no stripping, no case folding): the LIS-style padded channel `"GR  "` is not selected by
+the request `"GR"`, in none of the three places; a stripping curve section (`stringify` mapping `"GR  "` to `"GR"`) would list it alone. -/
+example : writeSel (fun s : String => s) ["DEPT", "GR  ", "RHOB"] ["GR", "rhob"] = { curve := [0], head := [0], rows := [0] } ∧
+    writeSel (fun s : String => s) ["DEPT", "GR  ", "RHOB"] ["GR  "] = { curve := [0, 1], head := [0, 1], rows := [0, 1] } ∧
+    writeSel (fun s : String => if s = "GR  " then "GR" else s) ["DEPT", "GR  ", "RHOB"] ["GR"] = { curve := [0, 1], head := [0], rows := [0] } := by
+  decide
+
 /-- adding the X axis twice (header, then data writer on the same set) is the same as adding it once -/
 theorem addXAxis_idem {Obj : Type} [DecidableEq Obj] (idents S : List Obj) :
     addXAxis idents (addXAxis idents S) = addXAxis idents S := by
